@@ -820,6 +820,23 @@ func rulePeriodicReader(c *Ctx, mx *PkgIndex, rule string) {
 		}
 	}
 	c.Check(good, rule, "sdk/metric|(*PeriodicReader).Shutdown|cancel → <-done → swap → collect → export → exporter.Shutdown", at(mx.M, sh.Pos()), "final collection happens after the run loop stopped and before the exporter is shut down", "shutdown order broken: "+why)
+	// what was collected is handed to the exporter: a delta collection has already consumed the aggregators' state, so a way out of
+	// export() that skips exporter.Export (a context that is already done, say) loses those measurements for good — Shutdown
+	// cancels the run loop's context first, and its own final collection then finds nothing
+	if exp := export; exp != nil {
+		eg := mx.FG(exp)
+		calls := toSet(eg.Match(func(n ast.Node) bool {
+			call, ok := n.(*ast.CallExpr)
+			return ok && isCallTo(info, call, "("+sdkMetric+".Exporter).Export")
+		}))
+		if len(calls) == 0 {
+			c.Violation(rule, "sdk/metric|(*PeriodicReader).export|every path hands the data to the exporter", at(mx.M, exp.Pos()), "export does not call Exporter.Export")
+		} else {
+			seen, par := eg.ReachFromEntry(func(y *GNode) bool { return calls[y] }, nil)
+			c.Check(!seen[eg.Exit], rule, "sdk/metric|(*PeriodicReader).export|every path hands the data to the exporter", at(mx.M, exp.Pos()), "no return before Exporter.Export",
+				"export can return without calling the exporter ("+eg.pathLines(par, eg.Exit)+"): the delta state was consumed by the collection that precedes it, so those measurements appear in no export")
+		}
+	}
 	// the memory the final collection writes into is not shared with a run loop that may still be exporting: it comes from the
 	// pool / is fresh, or Shutdown has joined the run goroutine unconditionally (a receive from done that is not one arm of a
 	// select with a way out) before it touches it
